@@ -100,8 +100,11 @@ def d1_tables(ctx, rm: REModel):
         lits = [lit for _s, lit in rm.state_writes(f.node)]
         ok = lits == [state]
         ctx.ob("C02.D1-request-state", cname(f, None, f"moves to {state!r}"), ok, "" if ok else f"writes states {lits}", where=where(f, f.node))
-        stored = [A.chain(s.value.func) if isinstance(s.value, ast.Call) else A.chain(s.value)
-                  for s in A.walk_stmts(f.node.body) if isinstance(s, ast.Assign) and A.chain(s.targets[0]) == "self._exception"]
+        stored = []
+        for s in A.walk_stmts(f.node.body):
+            if isinstance(s, ast.Assign) and A.chain(s.targets[0]) == "self._exception":
+                v = q.expand(f.node, s.value)  # the value may have been given a name first
+                stored.append(A.chain(v.func) if isinstance(v, ast.Call) else A.chain(v))
         ok = stored == [STATE_EXC[state]]
         ctx.ob("C02.D1-request-state", cname(f, None, f"paused branch stores {STATE_EXC[state]}"), ok,
                "" if ok else f"stores {stored}", where=where(f, f.node))
